@@ -20,6 +20,7 @@ POOLS = {
     "imin": [0, 1, -2 ** 63],          # the smallest int64 (negation wraps)
     "u8": [0, 1, 2],                   # unsigned (negation wraps)
     "td": [np.timedelta64(1, "D"), np.timedelta64("NaT", "D")],
+    "f4": [0.5, NAN, 2.0],             # float32 (and float16): every float width is a float kind with NaN as the missing value
     "objn": [None, 9, 10, 9.0],        # object vector of mutually comparable values: str() order differs from their own, 9 == 9.0 but str differs
 }
 
@@ -40,6 +41,8 @@ def mkcol(kind, values):
         return Vector(values, np.uint8)
     if kind == "objn":
         return Vector.fast(list(values), object)
+    if kind == "f4":
+        return Vector(np.array(list(values), np.float32))
     dt = {"int": int, "float": float, "str": str, "bool": bool, "date": "datetime64[D]", "obj": object}[kind]
     return Vector(values, dt)
 
@@ -239,6 +242,72 @@ def slice_long(run):
         run.check([r], ok, expected=f"rows {[i % 4 for i in r]} (slice) / the others in order (slice_off)", got=obs, clause="slice / slice_off with a longer index vector")
 
 
+@driver(P + "unique[one key column: longer frames with many duplicates]")
+def unique_long(run):
+    """the FIRST row of every key value is kept, whatever the length: a sort-based shortcut that is not stable only shows from about four
+    rows on (and an unstable argsort only beyond ~16), so all key vectors of 4-5 rows over three values and 40-row tie-heavy frames"""
+    import random
+    run.bound = "int / float / str key vectors: all of 4-5 rows over 3 values, plus 6 pseudo-random ones of 40 rows; unique on that column and left_join against it"
+    pools = {"int": [2, 1, 0], "float": [0.5, NAN, -1.5], "str": ["b", "", "a"]}
+    def gen():
+        for kind in pools:
+            for n in (4, 5):
+                for combo in itertools.product(range(3), repeat=n):
+                    if kind == "int" or n == 4:
+                        yield kind, list(combo)
+            for seed_ in range(2):
+                rnd = random.Random(77 + seed_)
+                yield kind, [rnd.randrange(3) for _ in range(40)]
+    for kind, idx in run.inputs(gen()):
+        vals = [pools[kind][i] for i in idx]
+        d = DataFrame(k=mkcol(kind, vals), i=Vector(list(range(len(vals))), int))
+        first = []
+        for t, v in enumerate(idx):
+            if v not in [idx[u] for u in first]:
+                first.append(t)
+        try:
+            got = d.unique("k")
+            ok = list(got.i) == first
+            # a join finds the FIRST right row with the key (non-missing keys only)
+            left = DataFrame(k=mkcol(kind, pools[kind]), j=Vector([0, 1, 2], int))
+            lj = left.left_join(d, "k")
+            for t in range(3):
+                exp = None if is_missing(pools[kind][t]) else next((u for u, v in enumerate(idx) if v == t), None)
+                ok = ok and ((exp is None and is_missing(lj.i[t])) or (exp is not None and lj.i[t] == exp))
+            obs = list(got.i)
+        except Exception as e:
+            ok, obs = False, f"raised {type(e).__name__}: {e}"
+        run.check([kind, idx], ok, expected=first, got=obs, clause="unique keeps the first row of every key value; left_join takes the first right row with the key")
+
+
+@driver(P + "modify[grouped: per-group results of a wrong length are rejected]")
+def grouped_modify_lengths(run):
+    """a group-wise function must return one value, or one value per row of ITS group; anything else is rejected, never stored"""
+    run.bound = "frames of 2-4 rows, one group column with group sizes (1,1) .. (3,1) / (2,2); functions returning k values as list / array / column for k in 0..4, or the whole column"
+    gen = ((g, k, how) for g in ([0, 1], [0, 0, 1], [0, 0, 0, 1], [0, 0, 1, 1], [1, 0, 0]) for k in (0, 1, 2, 3, 4, "all") for how in ("list", "array", "column"))
+    for g, k, how in run.inputs(gen):
+        d = DataFrame(g=Vector(g, int), i=Vector(list(range(len(g))), int))
+        before = snapshot(d)
+        whole = d.i
+
+        def f(x):
+            vals = list(whole) if k == "all" else list(range(100, 100 + k))
+            return {"list": lambda: vals, "array": lambda: np.array(vals), "column": lambda: DataFrameColumn(vals) if vals else DataFrameColumn([], int)}[how]()
+        sizes = {v: g.count(v) for v in set(g)}
+        nvals = len(g) if k == "all" else k
+        fits = all(nvals == 1 or nvals == sz for sz in sizes.values())
+        try:
+            got = d.copy().group_by("g").modify(z=f)
+            ok = fits and got.nrow == d.nrow and len(got.z) == d.nrow and got.colnames == ["g", "i", "z"]
+            obs = list(got.z)
+        except ValueError as e:
+            ok, obs = not fits, f"raised ValueError: {e}"
+        except Exception as e:
+            ok, obs = False, f"raised {type(e).__name__}: {e}"
+        ok = ok and snapshot(d) == before
+        run.check([g, k, how], ok, expected="one value per row of the frame" if fits else "ValueError", got=obs, clause="grouped modify: per-group results of a wrong length are rejected")
+
+
 NS = [0, 1, 2, 5]
 rows_driver(P + "head", lambda s, run: [(n,) for n in NS], lambda d, n: d.head(n), lambda d, n: list(range(min(n, d.nrow))))
 rows_driver(P + "tail", lambda s, run: [(n,) for n in NS], lambda d, n: d.tail(n),
@@ -260,7 +329,7 @@ def is_missing(x):
 
 KALL = ("int", "float", "str", "date", "obj")
 rows_driver(P + "drop_na[one column]", lambda s, run: [(s[0][0],)], lambda d, k: d.drop_na(k),
-            lambda d, k: [i for i in range(d.nrow) if not is_missing(d[k][i])], kinds=KALL)
+            lambda d, k: [i for i in range(d.nrow) if not is_missing(d[k][i])], kinds=KALL + ("td", "f4", "u8", "bool"))
 rows_driver(P + "drop_na[two columns]", lambda s, run: [(s[0][0], s[1][0])] if len(s) > 1 else [],
             lambda d, k1, k2: d.drop_na(k1, k2),
             lambda d, k1, k2: [i for i in range(d.nrow) if not (is_missing(d[k1][i]) or is_missing(d[k2][i]))], kinds=KALL)
